@@ -122,6 +122,79 @@ func writeCasesAt(outDir, prefix, imports, caseType, judgeFn string, cases []str
 	return files, offsets
 }
 
+// internStrings replaces every Coq string literal of the terms by a name defined once
+// (Coq elaborates a string literal character by character; case terms repeat the same few texts)
+func internStrings(terms []string) (string, []string) {
+	names := map[string]string{}
+	var defs []string
+	out := make([]string, len(terms))
+	for ti, t := range terms {
+		var b strings.Builder
+		for i := 0; i < len(t); {
+			if t[i] != '"' {
+				b.WriteByte(t[i])
+				i++
+				continue
+			}
+			j := i + 1
+			for j < len(t) {
+				if t[j] == '"' {
+					if j+1 < len(t) && t[j+1] == '"' {
+						j += 2
+						continue
+					}
+					break
+				}
+				j++
+			}
+			lit := t[i : j+1]
+			if len(lit) <= 4 {
+				b.WriteString(lit)
+			} else {
+				name, ok := names[lit]
+				if !ok {
+					name = fmt.Sprintf("s_%d", len(names))
+					names[lit] = name
+					defs = append(defs, fmt.Sprintf("Definition %s : string := %s.", name, lit))
+				}
+				b.WriteString(name)
+			}
+			i = j + 1
+		}
+		out[ti] = b.String()
+	}
+	return strings.Join(defs, "\n"), out
+}
+
+// writeCasesInterned: as writeCasesAt, with the string literals of each shard interned
+func writeCasesInterned(outDir, prefix, imports, caseType, judgeFn string, cases []string, shard int) ([]string, []int) {
+	var files []string
+	var offsets []int
+	for k := 0; k*shard < len(cases) || (k == 0 && len(cases) == 0); k++ {
+		lo, hi := k*shard, (k+1)*shard
+		if hi > len(cases) {
+			hi = len(cases)
+		}
+		defs, terms := internStrings(cases[lo:hi])
+		var b strings.Builder
+		b.WriteString(imports + "\n")
+		b.WriteString("Open Scope string_scope. Open Scope list_scope.\n")
+		b.WriteString(defs + "\n")
+		fmt.Fprintf(&b, "Definition cases : list %s := [\n", caseType)
+		b.WriteString(strings.Join(terms, ";\n"))
+		b.WriteString("\n].\n")
+		fmt.Fprintf(&b, "Definition R := Eval vm_compute in judge_all %s cases.\nPrint R.\n", judgeFn)
+		fn := filepath.Join(outDir, fmt.Sprintf("%s_%d.v", prefix, k))
+		must(os.WriteFile(fn, []byte(b.String()), 0o644))
+		files = append(files, fn)
+		offsets = append(offsets, lo)
+		if len(cases) == 0 {
+			break
+		}
+	}
+	return files, offsets
+}
+
 type Meta struct {
 	Property    string           `json:"property"`
 	Seed        uint64           `json:"seed"`
